@@ -71,13 +71,13 @@ func verifAssert(c bool, label string) {
 		verifCur.failed = append(verifCur.failed, label)
 	}
 }
-func verifReach(label string)     { verifCur.reached = append(verifCur.reached, label) }
-func verifOutside(reason string)  { panic(verifStop{"outside", reason}) }
-func verifTier() int              { return verifCur.tier }
-func verifPoolMode(mode int)      {}
-func verifFixedMapOrder(on bool)  {}
-func verifConcretize(x int) int   { return x }
-func verifGhostCount(string) int  { return 0 }
+func verifReach(label string)    { verifCur.reached = append(verifCur.reached, label) }
+func verifOutside(reason string) { panic(verifStop{"outside", reason}) }
+func verifTier() int             { return verifCur.tier }
+func verifPoolMode(mode int)     {}
+func verifFixedMapOrder(on bool) {}
+func verifConcretize(x int) int  { return x }
+func verifGhostCount(string) int { return 0 }
 func verifObsBytes(label string, b []byte) {
 	verifCur.obs = append(verifCur.obs, verifObsRec{label, fmt.Sprintf("%x", b)})
 }
